@@ -6,6 +6,7 @@
    ([walk_next] returns [Some]). *)
 From Coq Require Import List ZArith Bool Lia Sorting.Sorted Sorting.Permutation.
 From LV Require Import Ledger.Page Ledger.PageProofs.
+From LV Require Ledger.Types Ledger.Core Ledger.Reads Ledger.GroupProofs.   (* qualified: the volumes read model *)
 Import ListNotations.
 Open Scope Z_scope.
 
@@ -148,6 +149,16 @@ Proof.
   apply omore_ok_nth; try assumption. simpl. eapply Forall_impl; [|exact Hfa]. intros q Hq; apply Hq.
 Qed.
 Print Assumptions C21_offset_has_more_iff.
+
+(* ---------------------------------------------------------------- the key of (grouped) volume listings is unique *)
+(* "account/asset for volumes, including grouped volumes" IS a unique key: after any history, for any window, date mode and
+   group level g (0 = ungrouped), the rows GetVolumesWithBalances lists (Reads.read_volumes_grouped, mirror of
+   resource_volumes.go BuildDataset + Project) carry pairwise distinct (account, asset) pairs — the hypothesis [NoDup ks] of
+   the theorems above for these listings (the offset paginator walks them by rank in (account, asset) order) *)
+Theorem C21_grouped_volumes_unique_key : forall f h w g v,
+  Reads.read_volumes_grouped f (Core.run f h) w g = Some v -> NoDup (map fst v).
+Proof. exact GroupProofs.read_volumes_grouped_nodup. Qed.
+Print Assumptions C21_grouped_volumes_unique_key.
 
 (* ---------------------------------------------------------------- non-vacuity *)
 (* 7 unsorted keys, page size 3, descending: three pages; the previous cursor of each page gives the
